@@ -16,13 +16,19 @@ def run(ctx):
             "each position of a fresh exchange alone, after the peer's Finished, twice, or in pairs; and the sequence-gap family (g = 1..40 datagrams lost in a row, then replays "
             "of the post-gap, pre-gap, older and late in-window records). Suites PSK-CBC (0x008c, 0x00ae), RSA-CBC/GCM (0x002f, 0x009c), ECDHE-RSA-CBC/GCM (0xc013, 0xc02f), "
             "ECDHE-ECDSA-CBC/GCM (0xc009, 0xc02b; thorough also 0xc023, 0xc02c; P-256 sample identities on both sides for client-auth) x "
-            "DTLS 1.0/1.2 x PMTU 1500/600/400 (256 for PSK). distinct_nontrivial = distinct (version, suite, PMTU, handshake kind, fates actually consumed, options = spurious events + eager writers + entropy variation) for "
+            "DTLS 1.0/1.2 x PMTU 1500/600/400 (256 for PSK). Mixed-version pairs (version token '<client>~<server>' in specs and keys): client enabling DTLS 1.2+1.0 against a server enabling only 1.0, "
+            "and client enabling only 1.0 against a server enabling 1.2+1.0 - both negotiate 1.0 (checked at set-up), and in the first pairing every further copy of a ClientHello carries record "
+            "version 1.2 to a server that has chosen 1.0 (counted in handshake_datagrams_above_negotiated_version_to_server) - run the same schedule classes (drop patterns, singles, random, "
+            "spurious timers, final-flight loss, eager writers, ECDSA single drops), handshake kinds (incl. tickets) and the replay phase with the suites that exist in DTLS 1.0 "
+            "(0x008c at PMTU 1500/256, 0x002f, 0xc013, 0xc009; quick: a subset of PMTUs/kinds, thorough: PMTU 1500/400, RSA also 600). distinct_nontrivial = distinct (version pair, suite, PMTU, handshake kind, fates actually consumed, options = spurious events + eager writers + entropy variation) for "
             "schedules and distinct (version, suite, PMTU, kind, establishment, mode, record identity (direction, epoch, sequence, datagram?), second record, position) or "
             "(…, gap, variant, direction) for replays.")
     return vflib.std_run(ctx, st, "fault_enumeration", rule,
         ["the transport drops, duplicates, delays and reorders whole datagrams but never forges, truncates or coalesces them (forgery is C02/C08)",
          "timers are logical: a retransmission timer fires only in a round with an empty network (reference-application discipline: server session created on first datagram, "
          "completed client never times out, resumed-complete server never resends), except in the explicitly generated spurious-timeout class",
+         "a mixed-version pair is two endpoints whose sessOpts versionFlag differ (SSL_FLAGS_DTLS|SSL_FLAGS_TLS_1_2 = DTLS 1.2 and 1.0, SSL_FLAGS_DTLS|SSL_FLAGS_TLS_1_1 = DTLS 1.0 only); "
+         "a resumed handshake between such peers resumes a session established between the same two configurations",
          "rehandshakes are compiled out in this configuration, so 'previous epoch' means epoch 0 and the epoch of a superseded (retransmitted) Finished",
          "PMTU 256 is only exercised with PSK suites: a 2048-bit RSA ClientKeyExchange/ServerKeyExchange/CertificateVerify does not fit one 256-byte datagram and the library answers internal_error by design",
          "an application datagram that the schedule itself delays across rounds carries no delivery obligation (a record of a superseded epoch may be discarded); at-most-once still applies",
